@@ -1,0 +1,8 @@
+//go:build verif
+
+package db
+
+import "database/sql"
+
+// VerifDB exposes the database handle (to close it / to inspect tables).
+func (a *AggSenderSQLStorage) VerifDB() *sql.DB { return a.db }
